@@ -362,26 +362,26 @@ func (parser *Parser) ParseExpression(depth int) (res Sexp, err error) {
 		exp, err := parser.ParseInfix(depth + 1)
 		return exp, err
 	case TokenQuote:
-		expr, err := parser.ParseExpression(depth + 1)
+		expr, err := parser.parsePrefixOperand(depth + 1)
 		if err != nil {
 			return SexpNull, err
 		}
 		return MakeList([]Sexp{env.MakeSymbol("quote"), expr}), nil
 	case TokenCaret:
 		// '^' is now our syntax-quote symbol, not TokenBacktick, to allow go-style `string literals`.
-		expr, err := parser.ParseExpression(depth + 1)
+		expr, err := parser.parsePrefixOperand(depth + 1)
 		if err != nil {
 			return SexpNull, err
 		}
 		return MakeList([]Sexp{env.MakeSymbol("syntaxQuote"), expr}), nil
 	case TokenTilde:
-		expr, err := parser.ParseExpression(depth + 1)
+		expr, err := parser.parsePrefixOperand(depth + 1)
 		if err != nil {
 			return SexpNull, err
 		}
 		return MakeList([]Sexp{env.MakeSymbol("unquote"), expr}), nil
 	case TokenTildeAt:
-		expr, err := parser.ParseExpression(depth + 1)
+		expr, err := parser.parsePrefixOperand(depth + 1)
 		if err != nil {
 			return SexpNull, err
 		}
@@ -518,6 +518,24 @@ func (parser *Parser) ParseExpression(depth int) (res Sexp, err error) {
 		return &SexpSemicolon{}, nil
 	}
 	return SexpNull, fmt.Errorf("Invalid syntax, don't know what to do with '%v' (TokenType: %v)", tok, tok.typ)
+}
+
+// parsePrefixOperand parses the expression that a prefix operator
+// (% ^ ~ ~@) applies to. If the token stream runs dry right after the
+// operator we ask for more input, like an open list does, instead of
+// wrapping the end-of-input marker.
+func (parser *Parser) parsePrefixOperand(depth int) (Sexp, error) {
+	for {
+		expr, err := parser.ParseExpression(depth)
+		if err != nil || expr != SexpEnd {
+			return expr, err
+		}
+		parser.sendMe.Err = ErrMoreInputNeeded
+		ok := parser.yield(parser.sendMe)
+		if !ok {
+			return SexpEnd, ParserHaltRequested
+		}
+	}
 }
 
 // ParseTokens is the main service the Parser provides.
